@@ -97,6 +97,48 @@ def make_lists(ctx, rnd):
     return lib, lists
 
 
+def point_conversion_ok(A, B, R):
+    """Is the unit-only conversion of a point from unit A to unit B accepted for rep R?  The library
+    shifts by the displacement between the origins - a quantity in the common unit g of the units the
+    two origins are written in - and then converts: the displacement must fit R, the value and the
+    displacement must reach their common unit c under the implicit policy, and so must c -> B."""
+    if model.is_fp(R):
+        return True
+
+    def M(fr):
+        return model.mag_from_fraction(Fraction(fr))
+    D = A.o - B.o
+    if D == 0:
+        return model.implicit_ok(model.div(M(A.m), M(B.m)), R, R)
+    g = model.common_mag(*[M(u) for u in (A.o_unit, B.o_unit) if u is not None])
+    val = D / model.mag_to_fraction(g)
+    lo, hi = model.int_range(R)
+    if val.denominator != 1 or not (lo <= val <= hi):
+        return False
+    c = model.common_mag(M(A.m), g)
+    return (model.implicit_ok(model.div(M(A.m), c), R, R) and model.implicit_ok(model.div(g, c), R, R) and
+            model.implicit_ok(model.div(c, M(B.m)), R, R))
+
+
+def policy_items(lib, rnd, thorough):
+    """The safety surface of point conversions: for every ordered pair of library point units and
+    every integral rep, `.as(unit)` and `.in(unit)` (one witness each) compile exactly when the model
+    above says so - in particular for reps narrower than int, where the arithmetic itself runs in
+    int and only the policy keeps the narrow rep from wrapping."""
+    items = []
+    pairs = list(itertools.permutations(lib, 2))
+    if not thorough:
+        pairs = [p for p in pairs if rnd.random() < 0.5]
+    for A, B in pairs:
+        for R in ("int8_t", "uint8_t", "int16_t", "uint16_t", "int32_t", "int64_t"):
+            exp = point_conversion_ok(A, B, R)
+            for form, call in (("as", ".as(%s{})" % B.cpp), ("in", ".in(%s{})" % B.cpp)):
+                items.append(witness.Item("policy:%s:%s->%s/%s" % (form, A.name, B.name, R),
+                                          "void w() { (void)au::make_quantity_point<%s>(std::%s{1})%s; }" % (A.cpp, R, call), "accept" if exp else "reject", None,
+                                          dict(desc="point %s %s with rep %s: %s by the policy (origin displacement %s)" % (A.name, call, R, "permitted" if exp else "refused", A.o - B.o))))
+    return items
+
+
 def mixed_signedness(members):
     return any(m.o_rep == "unsigned" for m in members) and any(m.o < 0 for m in members)
 
@@ -215,11 +257,14 @@ def body(ctx):
     neq = sum(1 for l in lists if len(l) >= 3 and len({m.m for m in l}) == 1 and any("decltype" in m.cpp for m in l))
     ctx.require(neq >= len(lists) // 10, "only %d lists of three or more equal-size units with an anonymous scaled member" % neq)
     ctx.require(len(skipped_overflow) * 4 <= len(lists), "%d of %d lists have no common point unit (origin comparison overflows)" % (len(skipped_overflow), len(lists)))
+    pitems = policy_items(lib, rnd, ctx.thorough)
+    ctx.require(sum(1 for it in pitems if it.expect == "accept") >= 40 and sum(1 for it in pitems if it.expect == "reject") >= 100, "policy surface: too few accepted / refused conversions generated")
+    items += pitems
     results, stats = witness.judge(ctx, items, configs, prelude=prelude, batch=25, tag="c10")
     nbad = witness.report_mismatches(ctx, items, results, prelude=prelude)
     ctx.coverage.update(dict(
         evaluations=len(lists) + len(items) * len(configs), distinct_nontrivial=len(lists),
-        rule="one seeded list (pair or triple) of point units from {Kelvins, Celsius, Fahrenheit, prefixed forms} and generated units with rational size (num, den < 1000) and rational origin (positive, zero, negative, expressed in another unit, held in a signed or an unsigned rep): size and origin of CommonPointUnitT are read out of the type; ratio and offset of every input are decided exactly in the model; in three lists of ten the members have EQUAL size and pairwise different origins and mix named units with anonymous scaled units of library / generated roots (Celsius*5/9, Kilo<Kelvins>/1800 next to Fahrenheit), so that the ordering criteria below the size decide; permutation / repetition identity, nesting, the function forms (common_point_unit, make_common_point and common_point_unit over point makers), winner-is-an-input, mixed-rep comparison and difference of two members (a uint8_t value whose image leaves its own rep against an int64_t one: exact in the common rep) and agreement with the library's own conversion and origin_displacement are static_asserts",
+        rule="one seeded list (pair or triple) of point units from {Kelvins, Celsius, Fahrenheit, prefixed forms} and generated units with rational size (num, den < 1000) and rational origin (positive, zero, negative, expressed in another unit, held in a signed or an unsigned rep): size and origin of CommonPointUnitT are read out of the type; ratio and offset of every input are decided exactly in the model; in three lists of ten the members have EQUAL size and pairwise different origins and mix named units with anonymous scaled units of library / generated roots (Celsius*5/9, Kilo<Kelvins>/1800 next to Fahrenheit), so that the ordering criteria below the size decide; permutation / repetition identity, nesting, the function forms (common_point_unit, make_common_point and common_point_unit over point makers), winner-is-an-input, the accept / refuse surface of unit-only point conversions between library point units for six integral reps (modelled from the implicit policy: displacement fits, value and displacement reach their common unit, then the target), mixed-rep comparison and difference of two members (a uint8_t value whose image leaves its own rep against an int64_t one: exact in the common rep) and agreement with the library's own conversion and origin_displacement are static_asserts",
         samples=[dict(list=[repr(m) for m in lists[0]])], exhaustive=False,
         lists=len(lists), lists_equal_size_three_or_more=neq, lists_without_common_point_unit_overflowing_origin_comparison=len(skipped_overflow), model_obligations=nob, model_discharged=ndis, w_items=len(items), w_mismatches=nbad, configs=[c.name for c in configs], engine_stats=stats))
     ctx.assumptions += ["maximality of the common point unit is NOT demanded (the statement does not ask for it)"]
